@@ -80,8 +80,23 @@ class CallGraph:
             st.extend(self.edges.get(x, ()))
         return seen
 
-    def callers_of(self, fid):
-        return self.callers.get(fid, [])
+    def callers_of(self, fid, raw=False, _seen=None):
+        """call sites of fid.  A site inside a private helper that the pinned tree does not have (fx.new_helpers) is replaced by
+        the sites that call that helper (transitively): who-may-call rules then see the known function on whose behalf the
+        helper runs."""
+        sites = self.callers.get(fid, [])
+        if raw or not getattr(self.fx, "new_helpers", None):
+            return sites
+        _seen = _seen or set()
+        out = []
+        for cs in sites:
+            r = self.fx.root_fn(cs.caller)
+            if r in self.fx.new_helpers and r not in _seen:
+                up = self.callers_of(r, _seen=_seen | {r})
+                out.extend(up if up else [cs])
+            else:
+                out.append(cs)
+        return out
 
     def calls_in(self, fid, pred):
         return [cs for cs in self.sites.get(fid, []) if pred(cs)]
